@@ -12,6 +12,8 @@ use easy_ml::matrices::views::{
     IndexRange, MatrixMut, MatrixPart, MatrixRange, MatrixRef, MatrixReverse, MatrixView, Reverse,
 };
 use easy_ml::matrices::Matrix;
+use easy_ml::tensors::indexing::TensorAccess;
+use easy_ml::tensors::Tensor;
 
 const SENTINEL: u64 = 999_999_999;
 const MAX: usize = usize::MAX;
@@ -342,11 +344,309 @@ fn new_live(rows: usize, cols: usize, flags: &[(bool, bool)], src: &str) -> AnyL
     any
 }
 
+
+// ---------------------------------------------------------------------------------------------
+// the current view: a bare matrix, a mutable composition, or a read-only one (built through a
+// constructor that borrows its receiver: `Matrix::range(&self)`, `MatrixView::reverse(&self)`, …)
+// ---------------------------------------------------------------------------------------------
+
+pub type RDyn = Box<dyn MatrixRef<u64>>;
+
+thread_local! {
+    static QUAD_DISPLAY: std::cell::RefCell<Option<String>> = std::cell::RefCell::new(None);
+}
+
+enum Cur {
+    Leaf(Matrix<u64>),
+    Mut(MDyn),
+    Ref(RDyn),
+}
+
+/// run `$body` with `$m: &S` for the concrete `S: MatrixRef<u64>` of the current view
+macro_rules! with_cur_ref {
+    ($cur:expr, $m:ident => $body:expr) => {
+        match $cur {
+            Cur::Leaf($m) => $body,
+            Cur::Mut($m) => $body,
+            Cur::Ref($m) => $body,
+        }
+    };
+}
+
+/// run `$body` with `$m: &mut S`, `S: MatrixMut<u64>`; `$fallback` for a read-only view
+macro_rules! with_cur_mut {
+    ($cur:expr, $m:ident => $body:expr, else $fallback:expr) => {
+        match $cur {
+            Cur::Leaf($m) => $body,
+            Cur::Mut($m) => $body,
+            Cur::Ref(_) => $fallback,
+        }
+    };
+}
+
+#[derive(Clone, Copy, PartialEq)]
+enum LeafKind {
+    RowMajor,
+    ColumnMajor,
+}
+
+/// a column-major source: `MatrixRefTensor` over a `TensorAccess` in (row, column) order of a
+/// tensor stored in (column, row) order
+fn cm_leaf<T: 'static>(size: (usize, usize), data: Vec<T>) -> Box<dyn MatrixMut<T>> {
+    let t = Tensor::from([("c", size.1), ("r", size.0)], data);
+    Box::new(MatrixRefTensor::from(TensorAccess::from(t, ["r", "c"])))
+}
+
+fn make_leaf<T: 'static>(kind: LeafKind, size: (usize, usize), data: Vec<T>) -> Box<dyn MatrixMut<T>> {
+    match kind {
+        LeafKind::RowMajor => Box::new(Matrix::from_flat_row_major(size, data)),
+        LeafKind::ColumnMajor => cm_leaf(size, data),
+    }
+}
+
+fn parse_range_pair(s: &str) -> (usize, usize) {
+    let (a, b) = s.split_once(':').unwrap();
+    (a.parse().unwrap(), b.parse().unwrap())
+}
+
+/// the adaptor constructors on a bare `Matrix` receiver (`Matrix::range*`, `Matrix::reverse*`)
+fn apply_leaf(m: Matrix<u64>, op: &Op) -> Result<Cur, String> {
+    let ir = |p: (usize, usize)| IndexRange::new(p.0, p.1);
+    Ok(match op {
+        Op::Range(r, c, via) => match via.as_str() {
+            "matrix_range_owned" => Cur::Mut(Box::new(m.range_owned(ir(*r), ir(*c)).source())),
+            "matrix_range_mut" => {
+                let m: &'static mut Matrix<u64> = Box::leak(Box::new(m));
+                Cur::Mut(Box::new(m.range_mut(ir(*r), ir(*c)).source()))
+            }
+            "matrix_range" => {
+                let m: &'static Matrix<u64> = Box::leak(Box::new(m));
+                Cur::Ref(Box::new(m.range(ir(*r), ir(*c)).source()))
+            }
+            _ => return apply_mut(Box::new(m), op),
+        },
+        Op::Reverse(r, c, via) => {
+            let reverse = Reverse { rows: *r, columns: *c };
+            match via.as_str() {
+                "matrix_reverse_owned" => Cur::Mut(Box::new(m.reverse_owned(reverse).source())),
+                "matrix_reverse_mut" => {
+                    let m: &'static mut Matrix<u64> = Box::leak(Box::new(m));
+                    Cur::Mut(Box::new(m.reverse_mut(reverse).source()))
+                }
+                "matrix_reverse" => {
+                    let m: &'static Matrix<u64> = Box::leak(Box::new(m));
+                    Cur::Ref(Box::new(m.reverse(reverse).source()))
+                }
+                _ => return apply_mut(Box::new(m), op),
+            }
+        }
+        Op::Roundtrip => return apply_mut(Box::new(m), op),
+    })
+}
+
+/// … on a mutable composition (`MatrixView::range_mut`, `MatrixView::reverse(&self)`, … besides
+/// the constructors of the adaptors themselves)
+fn apply_mut(m: MDyn, op: &Op) -> Result<Cur, String> {
+    let ir = |p: (usize, usize)| IndexRange::new(p.0, p.1);
+    Ok(match op {
+        Op::Range(r, c, via) => match via.as_str() {
+            "view_range_mut" => {
+                let v: &'static mut MatrixView<u64, MDyn> = Box::leak(Box::new(MatrixView::from(m)));
+                Cur::Mut(Box::new(v.range_mut(ir(*r), ir(*c)).source()))
+            }
+            "view_range" => {
+                let v: &'static MatrixView<u64, MDyn> = Box::leak(Box::new(MatrixView::from(m)));
+                Cur::Ref(Box::new(v.range(ir(*r), ir(*c)).source()))
+            }
+            _ => Cur::Mut(apply(m, op)?),
+        },
+        Op::Reverse(r, c, via) => {
+            let reverse = Reverse { rows: *r, columns: *c };
+            match via.as_str() {
+                "view_reverse_mut" => {
+                    let v: &'static mut MatrixView<u64, MDyn> = Box::leak(Box::new(MatrixView::from(m)));
+                    Cur::Mut(Box::new(v.reverse_mut(reverse).source()))
+                }
+                "view_reverse" => {
+                    let v: &'static MatrixView<u64, MDyn> = Box::leak(Box::new(MatrixView::from(m)));
+                    Cur::Ref(Box::new(v.reverse(reverse).source()))
+                }
+                _ => Cur::Mut(apply(m, op)?),
+            }
+        }
+        Op::Roundtrip => Cur::Mut(apply(m, op)?),
+    })
+}
+
+/// … on a read-only composition (`Box<dyn MatrixRef>`)
+fn apply_ref(m: RDyn, op: &Op) -> Result<Cur, String> {
+    let ir = |p: (usize, usize)| IndexRange::new(p.0, p.1);
+    Ok(Cur::Ref(match op {
+        Op::Range(r, c, via) => match via.as_str() {
+            "view_range" => {
+                let v: &'static MatrixView<u64, RDyn> = Box::leak(Box::new(MatrixView::from(m)));
+                Box::new(v.range(ir(*r), ir(*c)).source())
+            }
+            "view" => Box::new(MatrixView::from(m).range_owned(ir(*r), ir(*c)).source()),
+            _ => Box::new(MatrixRange::from(m, ir(*r), ir(*c))),
+        },
+        Op::Reverse(r, c, via) => {
+            let reverse = Reverse { rows: *r, columns: *c };
+            match via.as_str() {
+                "view_reverse" => {
+                    let v: &'static MatrixView<u64, RDyn> = Box::leak(Box::new(MatrixView::from(m)));
+                    Box::new(v.reverse(reverse).source())
+                }
+                "view" => Box::new(MatrixView::from(m).reverse_owned(reverse).source()),
+                _ => Box::new(MatrixReverse::from(m, reverse)),
+            }
+        }
+        Op::Roundtrip => {
+            if let Err(e) = TensorRefMatrix::from(&m) {
+                return Err(format!("err {}", show_shape(&e.shape())));
+            }
+            Box::new(MatrixRefTensor::from(TensorRefMatrix::from(m).ok().unwrap()))
+        }
+    }))
+}
+
+fn layout_str(l: easy_ml::matrices::views::DataLayout) -> &'static str {
+    match l {
+        easy_ml::matrices::views::DataLayout::RowMajor => "row_major",
+        easy_ml::matrices::views::DataLayout::ColumnMajor => "column_major",
+        easy_ml::matrices::views::DataLayout::Other => "other",
+    }
+}
+
+/// `==` between the current view (or a copy of its elements in the requested layout) and a
+/// modified copy, through the three `PartialEq` impls
+fn equality<S: MatrixRef<u64>>(m: &S, kind: &str, lhs: &str, rhs: &str, via: &str) -> bool {
+    let (rows, cols) = (m.view_rows(), m.view_columns());
+    let cells: Vec<u64> = MatrixView::from(m).row_major_iter().collect();
+    // the right operand's elements in row-major order and its size
+    let (rr, rc, right): (usize, usize, Vec<u64>) = match kind {
+        "rows" => (rows + 1, cols, cells.iter().cloned().chain(std::iter::repeat(0).take(cols)).collect()),
+        "cols" => (
+            rows,
+            cols + 1,
+            (0..rows).flat_map(|i| cells[i * cols..(i + 1) * cols].iter().cloned().chain(std::iter::once(0))).collect(),
+        ),
+        k if k.starts_with("cell:") => {
+            let k: usize = k[5..].parse().unwrap();
+            let mut v = cells.clone();
+            if k < v.len() {
+                v[k] += 1;
+            }
+            (rows, cols, v)
+        }
+        _ => (rows, cols, cells.clone()),
+    };
+    // column-major storage of a row-major list
+    let to_cm = |r: usize, c: usize, v: &[u64]| -> Vec<u64> {
+        let mut out = vec![0; v.len()];
+        for i in 0..r {
+            for j in 0..c {
+                out[j * r + i] = v[i * c + j];
+            }
+        }
+        out
+    };
+    let right_matrix = Matrix::from_flat_row_major((rr, rc), right.clone());
+    // column-major operands are owned by their MatrixView (no reference layer in between)
+    let right_cm = || MatrixView::from(cm_leaf((rr, rc), to_cm(rr, rc, &right)));
+    let left_matrix = Matrix::from_flat_row_major((rows, cols), cells.clone());
+    let left_cm = || MatrixView::from(cm_leaf((rows, cols), to_cm(rows, cols, &cells)));
+    match (lhs, rhs, via) {
+        ("self", "rm", "view_matrix") => MatrixView::from(m) == right_matrix,
+        ("self", "rm", "matrix_view") => right_matrix == MatrixView::from(m),
+        ("self", "rm", _) => MatrixView::from(m) == MatrixView::from(&right_matrix),
+        ("self", _, _) => MatrixView::from(m) == right_cm(),
+        ("rm", "rm", "view_matrix") => MatrixView::from(&left_matrix) == right_matrix,
+        ("rm", "rm", "matrix_view") => left_matrix == MatrixView::from(&right_matrix),
+        ("rm", "rm", _) => MatrixView::from(&left_matrix) == MatrixView::from(&right_matrix),
+        ("rm", _, "matrix_view") => left_matrix == right_cm(),
+        ("rm", _, _) => MatrixView::from(left_matrix.clone()) == right_cm(),
+        (_, "rm", "view_matrix") => left_cm() == right_matrix,
+        (_, "rm", _) => left_cm() == MatrixView::from(right_matrix.clone()),
+        (_, _, _) => left_cm() == right_cm(),
+    }
+}
+
+/// every way of reading the whole view in row-major order
+fn scan_view<S: MatrixRef<u64>>(m: &S, via: &str) -> Option<Vec<u64>> {
+    let (rows, cols) = (m.view_rows(), m.view_columns());
+    let view = MatrixView::from(m);
+    Some(match via {
+        "column_major" => {
+            let cm: Vec<u64> = view.column_major_iter().collect();
+            let mut rm = vec![0; cm.len()];
+            for (k, x) in cm.iter().enumerate() {
+                let (c, r) = (k / rows.max(1), k % rows.max(1));
+                rm[r * cols + c] = *x;
+            }
+            rm
+        }
+        "reference" => view.row_major_reference_iter().copied().collect(),
+        // row_iter / column_iter require a first element (C09's business)
+        "rows" if cols > 0 => (0..rows).flat_map(|r| view.row_iter(r).collect::<Vec<_>>()).collect(),
+        "columns" if rows > 0 && cols > 0 => {
+            let mut rm = vec![0; rows * cols];
+            for c in 0..cols {
+                for (r, x) in view.column_iter(c).enumerate() {
+                    rm[r * cols + c] = x;
+                }
+            }
+            rm
+        }
+        "index" => {
+            let mut out = vec![];
+            for r in 0..rows {
+                for c in 0..cols {
+                    out.push(view.get(r, c));
+                }
+            }
+            out
+        }
+        "get_reference" => {
+            let mut out = vec![];
+            for r in 0..rows {
+                for c in 0..cols {
+                    out.push(*view.get_reference(r, c));
+                }
+            }
+            out
+        }
+        // the allocating transformations need at least one element
+        "transpose" if rows > 0 && cols > 0 => {
+            let t = view.transpose();
+            assert_eq!(t.size(), (cols, rows), "transpose size");
+            t.column_major_iter().collect()
+        }
+        "map" if rows > 0 && cols > 0 => view.map(|x| x + 1).row_major_iter().map(|x| x - 1).collect(),
+        "map_with_index" if rows > 0 && cols > 0 => {
+            let mapped = view.map_with_index(|x, i, j| (x, i, j));
+            assert_eq!(mapped.size(), (rows, cols), "map_with_index size");
+            mapped
+                .row_major_iter()
+                .enumerate()
+                .map(|(k, (x, i, j))| {
+                    assert_eq!((i, j), (k / cols, k % cols), "map_with_index index");
+                    x
+                })
+                .collect()
+        }
+        "rows" | "columns" | "transpose" | "map" | "map_with_index" | "row_major" | "" => view.row_major_iter().collect(),
+        _ => return None,
+    })
+}
+
 pub struct Runner {
+    cur: Option<Cur>,
+    leaf_kind: LeafKind,
+    quad_display: Option<String>,
     live: Option<AnyLive>,
     leaf: (usize, usize),
     ops: Vec<Op>,
-    view: Option<MDyn>,
     mapped: bool,
     parts: Vec<MatrixView<u64, MatrixPart<'static, u64>>>,
     part_matrix: *mut Matrix<u64>,
@@ -363,10 +663,12 @@ fn answer<T>(r: Result<T, PanicKind>, f: impl FnOnce(T) -> String) -> String {
 impl Runner {
     pub fn new() -> Runner {
         Runner {
+            cur: None,
+            leaf_kind: LeafKind::RowMajor,
+            quad_display: None,
             live: None,
             leaf: (0, 0),
             ops: vec![],
-            view: None,
             mapped: false,
             parts: vec![],
             part_matrix: std::ptr::null_mut(),
@@ -392,6 +694,8 @@ impl Runner {
         let res = catch(move || match via.as_str() {
             "quadrants" if rp.len() == 1 && cp.len() == 1 => {
                 let q = m.partition_quadrants(rp[0], cp[0]);
+                // Display for MatrixQuadrants
+                QUAD_DISPLAY.with(|d| *d.borrow_mut() = Some(format!("{}", q)));
                 vec![q.top_left, q.top_right, q.bottom_left, q.bottom_right]
             }
             _ => m.partition(&rp, &cp),
@@ -414,11 +718,13 @@ impl Runner {
         }
         let via = opt_arg("via", toks).unwrap_or("").to_string();
         if toks[0] == "@" {
-            self.view = None;
+            self.cur = None;
+            self.quad_display = None;
             self.ops.clear();
             self.mapped = false;
             self.drop_parts();
             self.partition_args = None;
+            QUAD_DISPLAY.with(|d| *d.borrow_mut() = None);
             self.live = None;
             return match toks[1] {
                 "live" => {
@@ -436,10 +742,16 @@ impl Runner {
                     self.live = Some(any);
                     format!("ok {}", s)
                 }
-                "matrix" => {
+                "matrix" | "cmatrix" => {
                     let (r, c): (usize, usize) = (toks[2].parse().unwrap(), toks[3].parse().unwrap());
                     self.leaf = (r, c);
-                    self.view = Some(Box::new(Matrix::from_flat_row_major((r, c), ids(r * c))));
+                    if toks[1] == "matrix" {
+                        self.leaf_kind = LeafKind::RowMajor;
+                        self.cur = Some(Cur::Leaf(Matrix::from_flat_row_major((r, c), ids(r * c))));
+                    } else {
+                        self.leaf_kind = LeafKind::ColumnMajor;
+                        self.cur = Some(Cur::Mut(cm_leaf((r, c), ids(r * c))));
+                    }
                     format!("ok size={}x{}", r, c)
                 }
                 "partition" => {
@@ -477,115 +789,181 @@ impl Runner {
             },
             "mrange" | "mreverse" | "roundtrip" => {
                 let op = match toks[0] {
-                    "mrange" => {
-                        let p = |s: &str| -> (usize, usize) {
-                            let (a, b) = s.split_once(':').unwrap();
-                            (a.parse().unwrap(), b.parse().unwrap())
-                        };
-                        Op::Range(p(toks[1]), p(toks[2]), via)
-                    }
+                    "mrange" => Op::Range(parse_range_pair(toks[1]), parse_range_pair(toks[2]), via),
                     "mreverse" => Op::Reverse(toks[1] == "1", toks[2] == "1", via),
                     _ => Op::Roundtrip,
                 };
-                let v = match self.view.take() {
-                    Some(v) => v,
+                let cur = match self.cur.take() {
+                    Some(c) => c,
                     None => return "no-view".into(),
                 };
-                let r = catch(|| apply(v, &op));
+                let was_ref = matches!(cur, Cur::Ref(_));
+                let r = catch(|| match cur {
+                    Cur::Leaf(m) => apply_leaf(m, &op),
+                    Cur::Mut(m) => apply_mut(m, &op),
+                    Cur::Ref(m) => apply_ref(m, &op),
+                });
                 match r {
                     Err(k) => panic_str(k),
                     Ok(Err(e)) => {
-                        // the refused source was consumed by the attempt on a reference only
-                        let leaf: MDyn =
-                            Box::new(Matrix::from_flat_row_major(self.leaf, ids(self.leaf.0 * self.leaf.1)));
-                        self.view = Some(build(leaf, &self.ops));
+                        // the refused source was consumed by the attempt: rebuild the view
+                        let n = self.leaf.0 * self.leaf.1;
+                        let rebuilt = build(make_leaf(self.leaf_kind, self.leaf, ids(n)), &self.ops);
+                        self.cur = Some(if was_ref { Cur::Ref(Box::new(rebuilt)) } else { Cur::Mut(rebuilt) });
                         e
                     }
                     Ok(Ok(w)) => {
                         self.ops.push(op);
-                        let s = format!("ok size={}x{}", w.view_rows(), w.view_columns());
-                        self.view = Some(w);
+                        let s = with_cur_ref!(&w, m => format!("ok size={}x{}", m.view_rows(), m.view_columns()));
+                        self.cur = Some(w);
                         s
                     }
                 }
             }
-            "mmap" => match &self.view {
+            "mmap" => match &self.cur {
                 // MatrixMap is crate-private: it is exercised by `scan via=display`
-                Some(v) => {
+                Some(w) => {
                     self.mapped = true;
-                    format!("ok size={}x{}", v.view_rows(), v.view_columns())
+                    with_cur_ref!(w, m => format!("ok size={}x{}", m.view_rows(), m.view_columns()))
                 }
                 None => "no-view".into(),
+            },
+            "layout" => match self.cur.take() {
+                None => "no-view".into(),
+                Some(w) => {
+                    // `via=view`: through a MatrixView that owns the object (no reference layer of
+                    // the harness's own in between)
+                    let by_view = via == "view";
+                    let (w, l) = match w {
+                        Cur::Leaf(m) if by_view => {
+                            let v = MatrixView::from(m);
+                            let l = v.data_layout();
+                            (Cur::Leaf(v.source()), l)
+                        }
+                        Cur::Mut(m) if by_view => {
+                            let v = MatrixView::from(m);
+                            let l = v.data_layout();
+                            (Cur::Mut(v.source()), l)
+                        }
+                        Cur::Ref(m) if by_view => {
+                            let v = MatrixView::from(m);
+                            let l = v.data_layout();
+                            (Cur::Ref(v.source()), l)
+                        }
+                        Cur::Leaf(m) => {
+                            let l = MatrixRef::data_layout(&m);
+                            (Cur::Leaf(m), l)
+                        }
+                        Cur::Mut(m) => {
+                            let l = MatrixRef::data_layout(&m);
+                            (Cur::Mut(m), l)
+                        }
+                        Cur::Ref(m) => {
+                            let l = MatrixRef::data_layout(&m);
+                            (Cur::Ref(m), l)
+                        }
+                    };
+                    self.cur = Some(w);
+                    layout_str(l).to_string()
+                }
+            },
+            "eq" => match &self.cur {
+                None => "no-view".into(),
+                Some(w) => {
+                    let lhs = opt_arg("lhs", toks).unwrap_or("self");
+                    let rhs = opt_arg("rhs", toks).unwrap_or("rm");
+                    let r = catch(|| with_cur_ref!(w, m => equality(m, toks[1], lhs, rhs, &via)));
+                    answer(r, |b| b.to_string())
+                }
             },
             "mget" | "uget" => {
                 let (r, c): (usize, usize) = (toks[1].parse().unwrap(), toks[2].parse().unwrap());
                 let unchecked = toks[0] == "uget";
-                match self.view.as_mut() {
-                    None => "no-view".into(),
-                    Some(m) => {
-                        let res = catch(|| {
+                let cur = match self.cur.as_mut() {
+                    None => return "no-view".into(),
+                    Some(c) => c,
+                };
+                let res: Result<Option<u64>, PanicKind> = catch(|| {
+                    // shared access forms (also the fallback of the mutable ones on a read-only view)
+                    let shared = |cur: &Cur, via: &str| -> Option<u64> {
+                        with_cur_ref!(cur, m => {
                             if unchecked {
                                 // only emitted for indexes inside the view
                                 Some(unsafe {
-                                    if via == "unchecked_mut" {
-                                        *m.get_reference_unchecked_mut(r, c)
+                                    if via.starts_with("view") {
+                                        *MatrixView::from(m).get_reference_unchecked(r, c)
                                     } else {
                                         *m.get_reference_unchecked(r, c)
                                     }
                                 })
                             } else {
-                                match via.as_str() {
-                                    "mut" => m.try_get_reference_mut(r, c).map(|x| *x),
-                                    "view" => MatrixView::from(&*m).try_get_reference(r, c).copied(),
-                                    "view_mut" => MatrixView::from(&mut *m).try_get_reference_mut(r, c).map(|x| *x),
+                                match via {
+                                    "view" | "view_mut" => MatrixView::from(m).try_get_reference(r, c).copied(),
+                                    "view_get_reference" | "view_get_reference_mut" => {
+                                        // the panicking getter: a documented panic is "absent"
+                                        match catch(|| *MatrixView::from(m).get_reference(r, c)) {
+                                            Ok(x) => Some(x),
+                                            Err(PanicKind::Explicit) => None,
+                                            Err(k) => std::panic::panic_any(format!("{}", match k {
+                                                PanicKind::Overflow => "attempt to subtract with overflow",
+                                                PanicKind::Index => "index out of bounds",
+                                                _ => "called `Option::unwrap()` on a `None` value",
+                                            })),
+                                        }
+                                    }
                                     _ => m.try_get_reference(r, c).copied(),
                                 }
                             }
-                        });
-                        answer(res, |o| if unchecked { o.unwrap().to_string() } else { show_opt(o) })
+                        })
+                    };
+                    let mutable = matches!(
+                        via.as_str(),
+                        "mut" | "view_mut" | "unchecked_mut" | "view_unchecked_mut" | "view_get_reference_mut"
+                    );
+                    if !mutable {
+                        return shared(cur, &via);
                     }
-                }
-            }
-            "scan" => match self.view.as_ref() {
-                None => "no-view".into(),
-                Some(m) => {
-                    let (rows, cols) = (m.view_rows(), m.view_columns());
-                    let leaf = self.leaf;
-                    let ops = self.ops.clone();
-                    let res = catch(|| -> Vec<u64> {
-                        let view = MatrixView::from(&*m);
-                        match via.as_str() {
-                            "column_major" => {
-                                let cm: Vec<u64> = view.column_major_iter().collect();
-                                let mut rm = vec![0; cm.len()];
-                                for (k, x) in cm.iter().enumerate() {
-                                    let (c, r) = (k / rows.max(1), k % rows.max(1));
-                                    rm[r * cols + c] = *x;
+                    with_cur_mut!(cur, m => {
+                        if unchecked {
+                            Some(unsafe {
+                                if via.starts_with("view") {
+                                    *MatrixView::from(&mut *m).get_reference_unchecked_mut(r, c)
+                                } else {
+                                    *m.get_reference_unchecked_mut(r, c)
                                 }
-                                rm
-                            }
-                            "reference" => view.row_major_reference_iter().copied().collect(),
-                            // row_iter requires the row to have a first element (C09's business)
-                            "rows" if cols > 0 => (0..rows).flat_map(|r| view.row_iter(r).collect::<Vec<_>>()).collect(),
-                            "rows" => vec![],
-                            "index" => {
-                                let mut out = vec![];
-                                for r in 0..rows {
-                                    for c in 0..cols {
-                                        out.push(view.get(r, c));
+                            })
+                        } else {
+                            match via.as_str() {
+                                "view_mut" => MatrixView::from(&mut *m).try_get_reference_mut(r, c).map(|x| *x),
+                                "view_get_reference_mut" => {
+                                    match catch(|| *MatrixView::from(&mut *m).get_reference_mut(r, c)) {
+                                        Ok(x) => Some(x),
+                                        Err(PanicKind::Explicit) => None,
+                                        Err(_) => std::panic::panic_any("attempt to subtract with overflow".to_string()),
                                     }
                                 }
-                                out
+                                _ => m.try_get_reference_mut(r, c).map(|x| *x),
                             }
+                        }
+                    }, else shared(cur, &via))
+                });
+                answer(res, |o| if unchecked { o.unwrap().to_string() } else { show_opt(o) })
+            }
+            "scan" => match self.cur.as_ref() {
+                None => "no-view".into(),
+                Some(w) => {
+                    let (rows, cols) = with_cur_ref!(w, m => (m.view_rows(), m.view_columns()));
+                    let leaf = self.leaf;
+                    let kind = self.leaf_kind;
+                    let ops = self.ops.clone();
+                    let res = catch(|| -> Vec<u64> {
+                        match via.as_str() {
                             "display" => {
                                 // Display of a RecordMatrix goes through MatrixMap
                                 let data: Vec<(f64, usize)> = (0..leaf.0 * leaf.1).map(|i| (i as f64, 0usize)).collect();
-                                let lf: Box<dyn MatrixMut<(f64, usize)>> =
-                                    Box::new(Matrix::from_flat_row_major(leaf, data));
-                                let v = build(lf, &ops);
+                                let v = build(make_leaf(kind, leaf, data), &ops);
                                 let rm: RecordMatrix<f64, _> = RecordMatrix::from_existing(None, MatrixView::from(v));
                                 let text = format!("{}", rm);
-                                if std::env::var("EMLV_DEBUG").is_ok() { eprintln!("DISPLAY {:?}", text); }
                                 text.replace(['[', ']'], " ")
                                     .split([',', '\n'])
                                     .map(|t| t.trim())
@@ -593,7 +971,20 @@ impl Runner {
                                     .map(|t| t.parse::<f64>().expect("number") as u64)
                                     .collect()
                             }
-                            _ => view.row_major_iter().collect(),
+                            "matrix_map_with_index" => match w {
+                                // Matrix's own map_with_index
+                                Cur::Leaf(m) => m
+                                    .map_with_index(|x, i, j| (x, i, j))
+                                    .row_major_iter()
+                                    .enumerate()
+                                    .map(|(k, (x, i, j))| {
+                                        assert_eq!((i, j), (k / cols, k % cols), "map_with_index index");
+                                        x
+                                    })
+                                    .collect(),
+                                _ => with_cur_ref!(w, m => scan_view(m, "row_major").unwrap()),
+                            },
+                            other => with_cur_ref!(w, m => scan_view(m, other).expect("scan via")),
                         }
                     });
                     answer(res, |v| format!("{}x{}:{}", rows, cols, show_ids(&v)))
@@ -602,11 +993,36 @@ impl Runner {
             "set" => {
                 let (r, c): (usize, usize) = (toks[1].parse().unwrap(), toks[2].parse().unwrap());
                 let n = self.leaf.0 * self.leaf.1;
-                let ptr: *mut Matrix<u64> = Box::into_raw(Box::new(Matrix::from_flat_row_major(self.leaf, ids(n))));
-                let leaf: MDyn = Box::new(unsafe { &mut *ptr });
+                // the leaf is leaked for the life of the view and read back afterwards
+                let mptr: *mut Matrix<u64> = std::ptr::null_mut();
+                let (leaf, read_back): (MDyn, Box<dyn FnOnce() -> Vec<u64>>) = match self.leaf_kind {
+                    LeafKind::RowMajor => {
+                        let ptr: *mut Matrix<u64> =
+                            Box::into_raw(Box::new(Matrix::from_flat_row_major(self.leaf, ids(n))));
+                        let leaf: MDyn = Box::new(unsafe { &mut *ptr });
+                        (leaf, Box::new(move || {
+                            let v: Vec<u64> = unsafe { (*ptr).row_major_iter().collect() };
+                            unsafe { drop(Box::from_raw(ptr)) };
+                            v
+                        }))
+                    }
+                    LeafKind::ColumnMajor => {
+                        let ptr: *mut Tensor<u64, 2> =
+                            Box::into_raw(Box::new(Tensor::from([("c", self.leaf.1), ("r", self.leaf.0)], ids(n))));
+                        let t: &'static mut Tensor<u64, 2> = unsafe { &mut *ptr };
+                        let leaf: MDyn = Box::new(MatrixRefTensor::from(TensorAccess::from(t, ["r", "c"])));
+                        (leaf, Box::new(move || {
+                            let v: Vec<u64> = unsafe { (*ptr).iter().collect() };
+                            unsafe { drop(Box::from_raw(ptr)) };
+                            v
+                        }))
+                    }
+                };
+                let _ = mptr;
                 let ops = self.ops.clone();
                 let res = catch(move || {
                     let mut v = build(leaf, &ops);
+                    let inside = r < v.view_rows() && c < v.view_columns();
                     match via.as_str() {
                         "view" => {
                             if let Some(x) = MatrixView::from(&mut v).try_get_reference_mut(r, c) {
@@ -617,6 +1033,19 @@ impl Runner {
                             // only emitted for indexes inside the view
                             *v.get_reference_unchecked_mut(r, c) = SENTINEL;
                         },
+                        "view_unchecked_mut" => unsafe {
+                            *MatrixView::from(&mut v).get_reference_unchecked_mut(r, c) = SENTINEL;
+                        },
+                        // the panicking writers, inside the view only
+                        "view_get_reference_mut" if inside => *MatrixView::from(&mut v).get_reference_mut(r, c) = SENTINEL,
+                        "view_set" if inside => MatrixView::from(&mut v).set(r, c, SENTINEL),
+                        "map_mut_with_index" if inside => MatrixView::from(&mut v)
+                            .map_mut_with_index(|x, i, j| if (i, j) == (r, c) { SENTINEL } else { x }),
+                        "map_mut" if inside => {
+                            // ids are unique: rewrite the one element this index reads
+                            let id = *v.try_get_reference(r, c).unwrap();
+                            MatrixView::from(&mut v).map_mut(|x| if x == id { SENTINEL } else { x })
+                        }
                         _ => {
                             if let Some(x) = v.try_get_reference_mut(r, c) {
                                 *x = SENTINEL;
@@ -625,8 +1054,7 @@ impl Runner {
                     }
                 });
                 // the view is gone (dropped or unwound): read the leaf back and free it
-                let after: Vec<u64> = unsafe { (*ptr).row_major_iter().collect() };
-                unsafe { drop(Box::from_raw(ptr)) };
+                let after = read_back();
                 answer(res, |_| changed(&ids(n), &after))
             }
             "partget" => {
@@ -643,6 +1071,33 @@ impl Runner {
                             _ => p.try_get_reference(r, c).copied(),
                         });
                         answer(res, show_opt)
+                    }
+                }
+            }
+            "partscan" if via == "display" => {
+                // the four quadrants as printed by `Display for MatrixQuadrants`
+                let text = QUAD_DISPLAY.with(|d| d.borrow().clone());
+                match text {
+                    None => "no-display".into(),
+                    Some(text) => {
+                        let sizes: Vec<(usize, usize)> = self.parts.iter().map(|p| (p.rows(), p.columns())).collect();
+                        let mut blocks = vec![];
+                        for block in text.split('[').skip(1) {
+                            let body = block.split(']').next().unwrap_or("");
+                            let v: Vec<u64> = body
+                                .split([',', '\n'])
+                                .map(|t| t.trim())
+                                .filter(|t| !t.is_empty())
+                                .map(|t| t.parse::<u64>().expect("number"))
+                                .collect();
+                            blocks.push(v);
+                        }
+                        blocks
+                            .iter()
+                            .zip(sizes.iter())
+                            .map(|(v, (r, c))| format!("{}x{}:{}", r, c, show_ids(v)))
+                            .collect::<Vec<_>>()
+                            .join(";")
                     }
                 }
             }
@@ -716,9 +1171,22 @@ impl Drop for Runner {
 // generation
 // ---------------------------------------------------------------------------------------------
 
-const MGET_VIAS: [&str; 4] = ["ref", "mut", "view", "view_mut"];
-const SCAN_VIAS: [&str; 6] = ["row_major", "column_major", "reference", "rows", "index", "display"];
-const RANGE_VIAS: [&str; 5] = ["indexrange", "tuple", "array", "range", "view"];
+const MGET_VIAS: [&str; 6] = ["ref", "mut", "view", "view_mut", "view_get_reference", "view_get_reference_mut"];
+const UGET_VIAS: [&str; 4] = ["unchecked", "unchecked_mut", "view_unchecked", "view_unchecked_mut"];
+const SET_VIAS: [&str; 8] = [
+    "mut", "view", "unchecked", "view_unchecked_mut", "view_get_reference_mut", "view_set", "map_mut_with_index", "map_mut",
+];
+const SCAN_VIAS: [&str; 12] = [
+    "row_major", "column_major", "reference", "rows", "columns", "index", "get_reference", "transpose", "map",
+    "map_with_index", "matrix_map_with_index", "display",
+];
+const RANGE_VIAS: [&str; 10] = [
+    "indexrange", "tuple", "array", "range", "view", "view_range_mut", "view_range", "matrix_range",
+    "matrix_range_mut", "matrix_range_owned",
+];
+const REVERSE_VIAS: [&str; 7] = [
+    "direct", "view", "view_reverse_mut", "view_reverse", "matrix_reverse", "matrix_reverse_mut", "matrix_reverse_owned",
+];
 
 fn ring(len: usize) -> Vec<usize> {
     let mut v = vec![0, len.saturating_sub(1), len, len + 1, MAX - 1, MAX];
@@ -773,21 +1241,39 @@ fn gen_queries(g: &mut Gen, rows: usize, cols: usize, tag: &str, full: bool) {
     for r in 0..rows {
         for c in 0..cols {
             if full || g.rng.chance(1, 3) {
-                let via = if g.rng.chance(1, 2) { "unchecked" } else { "unchecked_mut" };
+                let via = *g.rng.pick(&UGET_VIAS);
                 g.op(format!("uget {} {} via={}", r, c, via));
                 g.count("uget");
             }
             if g.rng.chance(1, if full { 2 } else { 6 }) {
-                let via = *g.rng.pick(&["mut", "view", "unchecked"]);
+                let via = *g.rng.pick(&SET_VIAS);
                 g.op(format!("set {} {} via={}", r, c, via));
-                g.count("set.in");
+                g.count(&format!("set.in.{}", via));
             }
         }
     }
     let (r, c) = (*g.rng.pick(&ring(rows)), *g.rng.pick(&ring(cols)));
     if !(r < rows && c < cols) {
-        g.op(format!("set {} {} via=mut", r, c));
+        let via = *g.rng.pick(&["mut", "view", "view_set", "map_mut_with_index"]);
+        g.op(format!("set {} {} via={}", r, c, via));
         g.count("set.out");
+    }
+    let via = *g.rng.pick(&["direct", "view"]);
+    g.op(format!("layout via={}", via));
+    g.count("layout");
+    if rows > 0 && cols > 0 && (full || g.rng.chance(1, 2)) {
+        let n = rows * cols;
+        let kinds = ["same".to_string(), format!("cell:{}", g.rng.below(n)), "rows".to_string(), "cols".to_string()];
+        let rounds = if full { 4 } else { 2 };
+        for _ in 0..rounds {
+            let kind = g.rng.pick(&kinds).clone();
+            let lhs = *g.rng.pick(&["self", "self", "rm", "cm"]);
+            let rhs = *g.rng.pick(&["rm", "cm"]);
+            let via = *g.rng.pick(&["view_view", "view_matrix", "matrix_view"]);
+            g.op(format!("eq {} lhs={} rhs={} via={}", kind, lhs, rhs, via));
+            g.count(&format!("eq.{}", kind.split(':').next().unwrap()));
+            g.count(&format!("eq.layouts.{}_{}", lhs, rhs));
+        }
     }
 }
 
@@ -802,6 +1288,16 @@ fn sizes(g: &Gen) -> Vec<(usize, usize)> {
         v
     } else {
         vec![(1, 1), (1, 3), (2, 2), (3, 2), (4, 5)]
+    }
+}
+
+fn leaf_line(g: &mut Gen, rows: usize, cols: usize) -> String {
+    if g.rng.chance(1, 4) {
+        g.count("leaf.column_major");
+        format!("@ cmatrix {} {}", rows, cols)
+    } else {
+        g.count("leaf.row_major");
+        format!("@ matrix {} {}", rows, cols)
     }
 }
 
@@ -829,10 +1325,12 @@ fn gen_ranges(g: &mut Gen) {
             if !g.thorough && k % 3 != 0 && (rows, cols) == (4, 5) {
                 continue;
             }
-            g.op(format!("@ matrix {} {}", rows, cols));
+            let line = leaf_line(g, rows, cols);
+            g.op(line);
             let via = range_via(g, r, c);
             g.op(format!("mrange {}:{} {}:{} via={}", r.0, r.1, c.0, c.1, via));
             g.count("mrange");
+            g.count(&format!("mrange.via.{}", via));
             if r.0 >= rows || c.0 >= cols {
                 g.count("mrange.fully_out_of_range");
             } else if r.0.saturating_add(r.1) > rows || c.0.saturating_add(c.1) > cols {
@@ -847,9 +1345,12 @@ fn gen_ranges(g: &mut Gen) {
         // the four reversal settings
         for rr in 0..2 {
             for rc in 0..2 {
-                g.op(format!("@ matrix {} {}", rows, cols));
-                g.op(format!("mreverse {} {} via={}", rr, rc, if rr == rc { "view" } else { "direct" }));
+                let line = leaf_line(g, rows, cols);
+                g.op(line);
+                let via = *g.rng.pick(&REVERSE_VIAS);
+                g.op(format!("mreverse {} {} via={}", rr, rc, via));
                 g.count("mreverse");
+                g.count(&format!("mreverse.via.{}", via));
                 gen_queries(g, rows, cols, "mreverse", true);
                 g.op("mmap".to_string());
                 g.op("scan via=display".to_string());
@@ -857,6 +1358,8 @@ fn gen_ranges(g: &mut Gen) {
         }
         g.op(format!("@ matrix {} {}", rows, cols));
         gen_queries(g, rows, cols, "matrix", true);
+        g.op(format!("@ cmatrix {} {}", rows, cols));
+        gen_queries(g, rows, cols, "cmatrix", true);
         g.op("roundtrip".to_string());
         g.count("roundtrip");
         gen_queries(g, rows, cols, "roundtrip", true);
@@ -867,7 +1370,8 @@ fn gen_nested(g: &mut Gen) {
     let rounds = if g.thorough { 20000 } else { 800 };
     for _ in 0..rounds {
         let (rows, cols) = (g.rng.range(1, 4), g.rng.range(1, 5));
-        g.op(format!("@ matrix {} {}", rows, cols));
+        let line = leaf_line(g, rows, cols);
+        g.op(line);
         let (mut vr, mut vc) = (rows, cols);
         let depth = g.rng.range(1, 3);
         let mut kinds = vec![];
@@ -893,7 +1397,9 @@ fn gen_nested(g: &mut Gen) {
                 }
                 2 | 3 => {
                     let (a, b) = (g.rng.below(2), g.rng.below(2));
-                    g.op(format!("mreverse {} {}", a, b));
+                    let via = *g.rng.pick(&REVERSE_VIAS);
+                    g.op(format!("mreverse {} {} via={}", a, b, via));
+                    g.count(&format!("mreverse.via.{}", via));
                     kinds.push("reverse");
                 }
                 _ => {
@@ -932,6 +1438,10 @@ fn gen_partition_case(g: &mut Gen, rows: usize, cols: usize, rp: &[usize], cp: &
     }
     let scan_via = *g.rng.pick(&["owned", "reference"]);
     g.op(format!("partscan via={}", scan_via));
+    if via == "quadrants" {
+        g.op("partscan via=display".to_string());
+        g.count("partition.quadrants_display");
+    }
     let mut rb = rp.to_vec();
     rb.push(rows);
     let mut cb = cp.to_vec();
